@@ -71,6 +71,98 @@ impl Space for Inject {
     }
 }
 
+/// The "tuple / named mismatch without member names" rule, both ways and exhaustively: a positional member mapped to a
+/// named counterpart (`as {}`) must carry, for every conversion kind the trait instructions request, a member instruction
+/// that reaches that kind through the documented fallback chain (M_prec) - then, and only then, the input is accepted.
+pub struct NameRule;
+
+pub struct NCase {
+    pub input: String,
+    pub uncovered: Vec<String>,
+    pub tags: Vec<String>,
+}
+
+impl Space for NameRule {
+    type Case = NCase;
+    fn name(&self) -> String {
+        "name-rule".into()
+    }
+    fn gen(&self, ctx: &mut Ctx) -> Option<NCase> {
+        use crate::model::{all_trait_names, appl, member_map_names, winner, Kind};
+        let tnames = all_trait_names();
+        let mnames = member_map_names();
+        let host = ctx.choose(2); // tuple struct | tuple variant with a variant-level hint
+        let t = tnames[ctx.choose(tnames.len())];
+        let (tdirs, tf) = appl(t).unwrap();
+        if host == 1 && tdirs.iter().any(|d| d.is_existing()) {
+            return ctx.reject(); // into_existing on enums: KF-C17-03
+        }
+        // one or two member instructions (or none)
+        let k = ctx.choose(3);
+        let mut ms: Vec<&str> = vec![];
+        for _ in 0..k {
+            let m = mnames[ctx.choose(mnames.len())];
+            if ms.contains(&m) {
+                return ctx.reject();
+            }
+            ms.push(m);
+        }
+        // two instructions must not compete for one (kind, fallibility) cell
+        let cells = |m: &str| { let (d, f) = appl(m).unwrap(); d.into_iter().map(move |x| (x, f)).collect::<Vec<_>>() };
+        if ms.len() == 2 && cells(ms[0]).iter().any(|c| cells(ms[1]).contains(c)) {
+            return ctx.reject();
+        }
+        let cands: Vec<(usize, Vec<crate::model::Dir>, bool, Option<String>)> = ms.iter().enumerate().map(|(i, m)| { let (d, f) = appl(m).unwrap(); (i, d, f, None) }).collect();
+        let uncovered: Vec<String> = tdirs.iter().map(|d| Kind { dir: *d, fallible: tf }).filter(|k| winner(&cands, *k, "T").is_none()).map(|k| k.basic_name().to_string()).collect();
+        let attrs: String = ms.iter().map(|m| if crate::item::has_bare_form(m) { format!("#[{}(u, ~ + 1)] ", m) } else { format!("#[o2o({}(u, ~ + 1))] ", m) }).collect();
+        let er = if tf { ", Er" } else { "" };
+        let input = if host == 0 {
+            format!("#[{t}(T as {{}}{er})]\nstruct S({attrs}i32);\n")
+        } else {
+            format!("#[{t}(T{er})]\nenum S {{ #[type_hint(as {{}})] A({attrs}i32), B }}\n")
+        };
+        let tags = vec![format!("host={}", ["tuple-struct", "tuple-variant"][host]), format!("trait={}", t), format!("members={}", ms.join("+")), format!("expect={}", if uncovered.is_empty() { "accept" } else { "reject" })];
+        Some(NCase { input, uncovered, tags })
+    }
+    fn check(&self, c: NCase, choices: &[u32], rep: &Report) {
+        rep.eval(1);
+        rep.states.add_of(&c.input);
+        if !c.uncovered.is_empty() {
+            rep.nontrivial.add_of(&c.input);
+        }
+        let x = expand(&c.input);
+        rep.validate(1);
+        rep.outputs.add_of(&(x.verdict(), c.uncovered.len()));
+        match (&x, c.uncovered.is_empty()) {
+            (Xp::Ok(_), true) => {}
+            (Xp::Err(m), false) => {
+                if !m.iter().any(|s| s.contains("field name")) {
+                    let mut f = fail("name-rule", choices, &c.input, &c.tags, "missing-diagnostic", format!("no diagnostic names the missing field name (kinds without a name: {})", c.uncovered.join(", ")));
+                    f.observed = format!("{:?}", m);
+                    rep.fail(f);
+                }
+            }
+            (Xp::Ok(_), false) => {
+                let mut f = fail("name-rule", choices, &c.input, &c.tags, "accepted-misuse", format!("accepted although no member instruction names the counterpart field for: {}", c.uncovered.join(", ")));
+                f.expected = "Err(diagnostics)".into();
+                rep.fail(f);
+            }
+            (Xp::Err(m), true) => {
+                let mut f = fail("name-rule", choices, &c.input, &c.tags, "rejected-valid-input", m.iter().skip(1).cloned().collect::<Vec<_>>().join(" | "));
+                f.expected = "accepted: every requested kind is reached by a member instruction through the fallback chain".into();
+                rep.fail(f);
+            }
+            (Xp::Panic { msg, loc }, _) => {
+                rep.fail(fail("name-rule", choices, &c.input, &c.tags, "panic", format!("{} @ {}", msg, loc.split(':').next().unwrap_or(""))));
+            }
+            (Xp::NotAnItem(e), _) => {
+                eprintln!("MACHINERY-ERROR: not an item: {} :: {}", e, c.input);
+                std::process::exit(2);
+            }
+        }
+    }
+}
+
 pub fn run(tier: &str) -> i32 {
     let rep = Report::new("C15", tier, "fault_enumeration");
     rep.set_rule("6 valid hosts (named struct x 2 counterparts, tuple struct with `as {}`, flattened struct, parent struct, enum with payloads, enum -> primitive) x the catalogue of ~60 concrete injections covering every misuse class of the statement (no trait instruction, duplicate instruction, missing/superfluous error type, 10 dedicated-to-unknown forms, duplicate default/dedicated for every instruction family, misplaced/misnamed names in bare and o2o(..) form, ghost without default, child without child_parents / missing path prefix, tuple/named mismatch, untyped nested parent, trait-level and member-level repeat conflicts, permeating repeat on a struct) x EVERY admissible position (type level: every index of the attribute list; member level: every member) and every PAIR of injections at every position x every surrounding valid instruction for a further counterpart (5 forms, first/last); thorough adds triples up to deviation bound 4. Oracle M_diag: verdict Err, and for every injected fault one diagnostic containing its salient key words; the fault-free hosts and every semantic struct case (valid by construction) must be accepted. states = distinct inputs; non-trivial = inputs with two simultaneous faults");
@@ -82,7 +174,30 @@ pub fn run(tier: &str) -> i32 {
     if tier != "quick" {
         run_space(&Inject { k: 3 }, Some(4), &caps, &rep);
     }
-    // "an input that breaks none is never rejected": the semantic struct space is valid by construction
+    run_space(&NameRule, None, &caps, &rep);
+    // "an input that breaks none is never rejected": the semantic spaces are valid by construction
+    for sp in crate::corpus::spaces(tier).into_iter().filter(|s| matches!(s.name.as_str(), "sem-flat" | "sem-flat-pos" | "sem-parent" | "sem-enum")) {
+        let name = format!("accept-only/{}", sp.name);
+        let st = explore(
+            |ctx| (sp.gen)(ctx),
+            sp.bound,
+            &caps,
+            |choices, c| {
+                let input = c.item.render();
+                rep.eval(1);
+                rep.states.add_of(&input);
+                let x = expand(&input);
+                rep.validate(1);
+                if let Xp::Err(m) = &x {
+                    let mut f = fail(&name, choices, &input, &c.tags, "rejected-valid-input", m.iter().skip(1).cloned().collect::<Vec<_>>().join(" | "));
+                    f.expected = "accepted (the input breaks no documented rule)".into();
+                    rep.fail(f);
+                }
+            },
+        );
+        rep.add_stats(&name, &sp.bound.map(|b| format!("dev({})", b)).unwrap_or("full".into()), &st);
+    }
+    // the semantic struct space, completely
     {
         let o = crate::sem_struct::Opts { max_n: if tier == "quick" { 2 } else { 3 }, menu: crate::sem_struct::MENU_FULL, max_ghosts: 1, allow_update: true, permute_idx: true };
         let st = explore(
@@ -109,6 +224,9 @@ pub fn run(tier: &str) -> i32 {
 }
 
 pub fn replay(f: &Failure) -> i32 {
+    if f.space == "name-rule" {
+        return replay_space(&NameRule, f, "C15");
+    }
     if f.space.starts_with("inject(") {
         let k: usize = f.space.trim_start_matches("inject(").trim_end_matches(')').parse().unwrap_or(1);
         return replay_space(&Inject { k }, f, "C15");
